@@ -14,7 +14,7 @@ SPEC = {
     "engine": "E1 (generators, SRF, RNG.sample_sphere) + E2 (summator.pyx) with symbolic random numbers",
     "files": FILES,
     "functions": ["RandMeth.__call__/reset_seed/get_nugget", "IncomprRandMeth.__call__", "Fourier.__call__/reset_seed/_set_modes", "SRF.__call__", "RNG.sample_sphere", "summate / summate_incompr / summate_fourier (E2)"],
-    "bounds": {"quick": {"dim": "1-3", "modes": "2 (Fourier: 2 per axis)", "points": "2 symbolic evaluation points", "model": "Gaussian (ppf sampling) and Exponential (MCMC radii stub)"}, "thorough": {"modes": "3"}},
+    "bounds": {"quick": {"dim": "1-3", "modes": "2 (Fourier: 2 per axis)", "points": "2 symbolic evaluation points", "model": "Gaussian (ppf sampling) and Exponential (MCMC radii stub)"}, "thorough": {"modes": "4"}},
     "stubs": ["random draws: symbols (normal amplitudes Z, uniform angles U); E[Z_i Z_j] = delta_ij is the only distributional fact used, as the definition of the coefficient form", "emcee radii: symbolic, no law assumed"],
     "oracle": "conditional on the wave vectors: u(x) = sqrt(var/N) sum_j Z1_j cos(k_j x) + Z2_j sin(k_j x) (Hesse et al. 2014); E u(x)u(y) = (var/N) sum_j cos(k_j (x-y)); Var u(x) = var; Fourier: weights sqrt(S(|k|) prod dk)",
     "outside": [
@@ -269,7 +269,7 @@ def _spec_model(gs, SPEC_F):
 
 
 def jobs(tier, seed):
-    nm = 3 if tier == "thorough" else 2
+    nm = 4 if tier == "thorough" else 2
     js = []
     for dim in (1, 2, 3):
         js.append(Job(f"randmeth-gaussian-d{dim}", job_randmeth, dim, "Gaussian", nm, tier))
